@@ -369,7 +369,9 @@ theorem gstep_adapter_thread {s s' : DState} {tid : String} {op : OpClass} {x : 
     (hc : ∃ m y, GEff.adapterBegin m y ∈ effs ∨ GEff.adapterEnd m y ∈ effs) :
     tid ≠ "R" ∧ tid ≠ "W" ∧ tid ≠ "M" ∧ tid ≠ "P" ∧ tid.startsWith "T" = true := by
   obtain ⟨m, y, hc⟩ := hc
+  have hx := gstep_not_exited h
   unfold gstep at h
+  rw [if_neg (by simp [hx])] at h
   repeat' split at h
   all_goals try simp only at h
   all_goals repeat' split at h
@@ -380,6 +382,9 @@ theorem gstep_adapter_thread {s s' : DState} {tid : String} {op : OpClass} {x : 
        simp only [Option.some.injEq, Prod.mk.injEq] at h; obtain ⟨rfl, rfl⟩ := h
        simp at hc; done)
     | (exfalso
+       simp only [Option.some.injEq, Prod.mk.injEq] at h; obtain ⟨rfl, rfl⟩ := h
+       rcases hc with hc | hc <;> rcases mem_gioEffects hc with h | h <;> cases h)
+    | (exfalso
        refine liftItem_no_adapter h ?_ ?_ hc <;> (intros; intro hh; cases hh))
     | (exfalso
        simp only [Option.some.injEq, Prod.mk.injEq] at h; obtain ⟨rfl, rfl⟩ := h
@@ -387,25 +392,30 @@ theorem gstep_adapter_thread {s s' : DState} {tid : String} {op : OpClass} {x : 
        refine liftItem_no_adapter hl ?_ ?_ hc <;> (intros; intro hh; cases hh))
 
 /-- **C18 on the Data server model: the reader can always take the next bytes, and the writer the next message**,
-    whatever the pool tasks are doing. -/
-theorem gstep_reader_writer_enabled (s : DState) (x : String) :
-    (s.rst = 2 → s.rmid = none → s.rq = [] → s.inbound ≠ [] → (gstep s "R" .recv x).isSome) ∧
+    whatever the pool tasks are doing (as long as the process has not exited — the default reaction to an I/O failure; the
+    reader's `recv` is also enabled when the peer has closed the connection: it is then the failing read of
+    Conc/DataFault.lean). -/
+theorem gstep_reader_writer_enabled (s : DState) (x : String) (hx : s.exited = false) :
+    (s.rst = 2 → s.rmid = none → s.rq = [] → (s.inbound ≠ [] ∨ s.inEnd = true) → (gstep s "R" .recv x).isSome) ∧
     (s.rst = 2 → s.rmid = none → ∀ l rest, s.rq = .reply l :: rest → (gstep s "R" .put x).isSome) ∧
     (s.wst = 2 → s.wpc = .get → s.sendQ ≠ [] → ∀ b, (gstep s "W" (.get b) x).isSome) ∧
     (s.wst = 2 → ∀ m, s.wpc = .send m → (gstep s "W" .send x).isSome) := by
   refine ⟨?_, ?_, ?_, ?_⟩
   · intro h0 h1 h2 h3
     cases hin : s.inbound with
-    | nil => exact absurd hin h3
-    | cons c rest => simp [gstep, h0, h1, h2, hin]
+    | nil =>
+      rcases h3 with h3 | h3
+      · exact absurd hin h3
+      · simp [gstep, hx, h0, h1, h2, hin, h3]
+    | cons c rest => simp [gstep, hx, h0, h1, h2, hin]
   · intro h0 h1 l rest h2
-    simp [gstep, h0, h1, h2]
+    simp [gstep, hx, h0, h1, h2]
   · intro h0 h1 h2 b
     cases hq : s.sendQ with
     | nil => exact absurd hq h2
-    | cons c rest => simp [gstep, h0, h1, hq]
+    | cons c rest => cases c <;> simp [gstep, hx, h0, h1, hq]
   · intro h0 m h1
-    simp [gstep, h0, h1]
+    simp [gstep, hx, h0, h1]
 
 theorem lineOps_gate (s : DState) (l : String) :
     (s.initExpected = false → (lineOps s l).2 = false) ∧
@@ -421,13 +431,15 @@ theorem lineOps_gate (s : DState) (l : String) :
       · simp only
         exact ⟨fun _ => trivial, fun _ _ _ => trivial⟩
     · split
-      · generalize decodeRequest _ _ = d
-        split
-        · simp only
-          exact ⟨fun _ => trivial, fun _ _ _ => trivial⟩
-        · simp only
-          exact ⟨fun _ => trivial, fun _ _ _ => trivial⟩
-      · exact ⟨id, fun x t h => by simp at h⟩
+      · exact ⟨fun _ => rfl, fun _ _ _ => rfl⟩
+      · split
+        · generalize decodeRequest _ _ = d
+          split
+          · simp only
+            exact ⟨fun _ => trivial, fun _ _ _ => trivial⟩
+          · simp only
+            exact ⟨fun _ => trivial, fun _ _ _ => trivial⟩
+        · exact ⟨id, fun x t h => by simp at h⟩
 
 /-- the function the reader folds over the lines of a chunk. -/
 def lineF (s : DState) (acc : List ROp × Bool) (l : String) : List ROp × Bool :=
@@ -503,7 +515,9 @@ theorem gstep_gate_cases {s s' : DState} {tid : String} {op : OpClass} {x : Stri
     (∃ lines : List String, s.rmid = none ∧ s.rq = [] ∧ s'.tasks = s.tasks ∧ s'.rmid = s.rmid ∧
       lines.foldl (lineF s) ([], s.initExpected) = (s'.rq, s'.initExpected)) ∨
     (s'.initExpected = s.initExpected ∧ (s.rmid.isSome = true ∨ ∃ x t, ROp.req x t ∈ s.rq)) := by
+  have hx := gstep_not_exited h
   unfold gstep at h
+  rw [if_neg (by simp [hx])] at h
   repeat' split at h
   all_goals try simp only at h
   all_goals repeat' split at h
@@ -511,6 +525,9 @@ theorem gstep_gate_cases {s s' : DState} {tid : String} {op : OpClass} {x : Stri
     | contradiction
     | (simp only [Option.some.injEq, Prod.mk.injEq] at h; obtain ⟨rfl, rfl⟩ := h
        exact .inl ⟨rfl, rfl, rfl, fun a ha => ha⟩)
+    | (simp only [Option.some.injEq, Prod.mk.injEq] at h; obtain ⟨rfl, rfl⟩ := h
+       refine .inl ⟨rfl, rfl, rfl, fun a ha => ?_⟩
+       exact absurd ha List.not_mem_nil)
     | (simp only [Option.some.injEq, Prod.mk.injEq] at h; obtain ⟨rfl, rfl⟩ := h
        refine .inl ⟨rfl, rfl, rfl, fun a ha => ?_⟩
        rw [(by assumption : s.rq = _)]
